@@ -39,7 +39,7 @@ func (s wlStep) String() string {
 	return fmt.Sprintf("%s(%d,%d,%d%s)", s.Op, s.A, s.B, s.C, labelsStr(s.L))
 }
 
-var wlOps = []string{"release", "put", "put", "del", "attach", "attach", "mon", "refilter", "closeNode", "stall", "disconnect", "relistPending", "relistDone", "frames"}
+var wlOps = []string{"release", "put", "put", "del", "attach", "attach", "mon", "refilter", "closeNode", "stall", "disconnect", "relistPending", "relistDone", "frames", "flood"}
 
 func genWorkload() *rapid.Generator[[]wlStep] {
 	return rapid.Custom(func(t *rapid.T) []wlStep {
@@ -50,6 +50,15 @@ func genWorkload() *rapid.Generator[[]wlStep] {
 		}
 		if rapid.IntRange(0, 3).Draw(t, "releaseEarly") > 0 {
 			out[0].Op = "release"
+		}
+		if rapid.IntRange(0, 7).Draw(t, "fullBuffer") == 0 {
+			// a filtered subscription whose consumer does not read, its buffer filled, then refiltered:
+			// the shutdown points that follow include "a Refilter's events found no room"
+			prefix := []wlStep{{Op: "release"}, {Op: "attachFsub", C: rapid.IntRange(0, 50).Draw(t, "ff")}, {Op: "stallFsub"}, {Op: "flood", B: rapid.IntRange(0, 50).Draw(t, "fb")}}
+			if len(out) > 8 {
+				out = out[:8]
+			}
+			out = append(prefix, out...)
 		}
 		if envInt("VERIF_C12_RECONNECT", 0) != 0 {
 			// real-time states: the watch stream is dropped and the watcher has
@@ -95,6 +104,20 @@ func c12Apply(w *world, st *c12State, s wlStep) {
 			return
 		}
 		w.attach(cands[s.A%len(cands)], attachKinds[s.B%len(attachKinds)], s.C%len(w.fam))
+	case "attachFsub":
+		if !w.rootReady {
+			return
+		}
+		w.attach(w.nodes[0], "fsub", 1+s.C%2)
+	case "stallFsub":
+		for _, n := range w.live() {
+			if n.kind == "fsub" && !n.isStalled() {
+				w.stallNode(n)
+				n.lossy = true
+				st.forced["stalled-consumer"] = true
+				break
+			}
+		}
 	case "mon":
 		ps := w.livePublishers()
 		if len(ps) == 0 || len(w.nodes) > 10 {
@@ -144,6 +167,31 @@ func c12Apply(w *world, st *c12State, s wlStep) {
 		n := w.api.closeSessions()
 		w.h("watch streams closed by the server (%d); reconnect timer pending", n)
 		st.forced["mid-reconnect"] = true
+	case "flood":
+		// more events than a buffer holds while some consumer is not reading: its subscription's
+		// buffer is full from now on (whatever is sent to it next finds no room)
+		if !w.rootReady || !st.forced["stalled-consumer"] || st.forced["buffer-full"] {
+			return
+		}
+		for i := 0; i < kcache.EventBufsiz+10; i++ {
+			k := treeKeys[i%len(treeKeys)]
+			// (labels alternate per round: every event crosses the x=1 / x=2 filters, so filtered
+			// subscriptions receive one event per change as well)
+			w.put(k[0], k[1], map[string]string{"x": fmt.Sprint(1 + (i/len(treeKeys))%2)})
+			if i%25 == 24 {
+				w.barrier()
+			}
+		}
+		w.barrier()
+		st.forced["buffer-full"] = true
+		// a stalled filtered subscription is refiltered now: whatever the Refilter emits finds no room
+		for _, n := range w.live() {
+			if n.kind == "fsub" && n.isStalled() {
+				w.refilter(n, 1+(s.B+n.filt)%2) // x=1 <-> x=2: both evicts and admits flooded objects
+				st.forced["refilter-into-full-buffer"] = true
+				break
+			}
+		}
 	case "frames":
 		if !w.rootReady {
 			return
